@@ -2,6 +2,7 @@ import BqVerif.Proofs.Partition
 import BqVerif.Proofs.QuickSpec
 import BqVerif.Proofs.PartitionBins
 import BqVerif.Proofs.Region
+import BqVerif.Proofs.RegionTopo
 /-!
 # C08 — partitioning regroups operations without changing the program
 
@@ -427,6 +428,34 @@ theorem C08_region_lt_shared (r s : BqVerif.Region.Region) (hne : r.common s ≠
         ∃ q ∈ r.common s, ∃ q' ∈ r.common s,
           BqVerif.Region.Region.fShared r s q ≠ BqVerif.Region.Region.fShared r s q') :=
   BqVerif.Region.Region.ltRegion_dependsOn r s hne
+
+/-- **`GreedyPartitioner.topo_sort`** (`Model/Region.lean: topoSortRegions`, the code's loop: select
+    the first unselected region none of whose *other* unselected regions it depends on).  For every
+    list of regions: if it returns, the output lists every region exactly once and every region
+    comes after all the regions it `depends_on`; if it raises RuntimeError, some regions are left
+    and each of them depends on another one that is left (the dependency relation has a cycle -
+    recorded finding F5 is GreedyPartitioner producing such families, not a fault of the sort);
+    and whenever the dependencies are acyclic (witnessed by a rank function) it returns. -/
+theorem C08_topo_sort (rs : List BqVerif.Region.Region) :
+    (∀ out, topoSortRegions rs = some out →
+        out.Nodup ∧ out.length = rs.length ∧ (∀ i, i ∈ out ↔ i < rs.length)
+        ∧ ∀ pre i post, out = pre ++ i :: post →
+            ∀ j, j < rs.length → j ≠ i → regionDep rs i j = true → j ∈ pre)
+    ∧ (topoSortRegions rs = none →
+        ∃ sel : List Nat, sel.length < rs.length ∧
+          ∀ i, i < rs.length → i ∉ sel →
+            ∃ j, j < rs.length ∧ j ≠ i ∧ j ∉ sel ∧ regionDep rs i j = true)
+    ∧ (∀ rank : Nat → Nat,
+        (∀ i j, i < rs.length → j < rs.length → j ≠ i → regionDep rs i j = true → rank j < rank i) →
+        ∃ out, topoSortRegions rs = some out) :=
+  ⟨fun out h => topoSort_ok _ _ out h, fun h => topoSort_err _ _ h,
+   fun rank hr => topoSort_total _ _ rank hr⟩
+
+/-- non-vacuity: three blocks sorted, and the 4-cycle of regions on which the sort raises -/
+example :
+    topoSortRegions [[(1, ⟨2, 3⟩), (2, ⟨0, 3⟩)], [(0, ⟨0, 1⟩), (1, ⟨0, 1⟩)], [(0, ⟨2, 2⟩)]] = some [1, 0, 2]
+    ∧ topoSortRegions [[(0, ⟨1, 1⟩)], [(1, ⟨1, 1⟩), (0, ⟨0, 0⟩)], [(1, ⟨0, 0⟩), (2, ⟨1, 1⟩)],
+        [(2, ⟨0, 0⟩), (0, ⟨2, 2⟩)]] = none := by decide
 
 /-- non-vacuity: two blocks of a 3-qudit circuit, the second after the first on qudit 1 -/
 example :
